@@ -3,6 +3,7 @@ package props
 import (
 	"fmt"
 	"go/token"
+	"go/types"
 	"strings"
 
 	"golang.org/x/tools/go/ssa"
@@ -53,6 +54,28 @@ func c01(r *Report) {
 	dvp := p.Func(ver, "verifier", "doVerifyVP")
 	r.ArgIs("C01.time.vp-signature-at-validAt", dvp, Fn(ver, "signatureVerifier", "VerifyVPSignature"), 1, ParamV("validAt"), 1)
 	r.ArgIs("C01.time.vp-credentials-at-validAt", dvp, p.FnOrImpl(ver, "Verifier", "Verify"), 3, ParamV("validAt"), 1)
+	// trust administration: "trusted" means an entry equal to the issuer exists; removing trust looks at EVERY entry of the
+	// type's list (the list is loaded from an operator-edited file and may name an issuer more than once)
+	const trustPkg = "vcr/trust"
+	uriString := OrV(CallV(Fn("github.com/nuts-foundation/go-did", "URI", "String"), -1), OriginV(CallV(Fn("github.com/nuts-foundation/go-did", "URI", "String"), -1)))
+	r.Gate(Gate{ID: "C01.trust.trusted-only-if-listed", Fn: p.Func(trustPkg, "Config", "IsTrusted"), Effect: ReturnsBool(0, true),
+		Check: CmpCheck("entry == issuer.String()", token.EQL, AnyV(), uriString, true)})
+	rt := p.Func(trustPkg, "Config", "RemoveTrust")
+	isList := func(v ssa.Value) bool { return FieldV("Config", "issuersPerType").M(v) }
+	if dfs := Calls(rt, Fn("std:slices", "", "DeleteFunc")); rt != nil && len(dfs) == 1 {
+		// the library form of the same filter: slices.DeleteFunc(list, func(e) bool { return e == issuer.String() }) visits
+		// every element; the predicate must say "delete" only for entries equal to the issuer, and the result is what is stored
+		pred := closureArgOf(dfs[0], 1)
+		r.Gate(Gate{ID: "C01.trust.remove-filters-every-entry", Fn: pred, Effect: ReturnsBool(0, true),
+			Check: CmpCheck("entry == issuer.String()", token.EQL, AnyV(), uriString, true)})
+		r.Gate(Gate{ID: "C01.trust.remove-filters-every-entry.keeps-others", Fn: pred, Effect: ReturnsBool(0, false),
+			Check: CmpCheck("entry == issuer.String() is false", token.EQL, AnyV(), uriString, false)})
+	} else {
+		r.Gate(Gate{ID: "C01.trust.remove-filters-every-entry", Fn: rt, ForEach: true,
+			Effect: InstrEffect("issuersPerType[type] = new list", func(in ssa.Instruction) bool { mu, ok := in.(*ssa.MapUpdate); return ok && isList(mu.Map) }),
+			Check:  CmpCheck("entry == issuer.String() is false (kept)", token.EQL, AnyV(), uriString, false),
+			Skip:   []Check{CmpCheck("entry == issuer.String() (dropped)", token.EQL, AnyV(), uriString, true)}})
+	}
 	r.ArgIs("C01.vp.credentials-trust-as-requested", dvp, p.FnOrImpl(ver, "Verifier", "Verify"), 1, ParamV("allowUntrustedVCs"), 1)
 
 	// IsRevoked: false only via ErrNotFound
@@ -90,6 +113,22 @@ func c01(r *Report) {
 	r.Gate(Gate{ID: "C01.ld.signature", Fn: ld, Effect: ok, Check: ErrCheck(Fn("vcr/signature/proof", "LDProof", "Verify"))})
 	c17ArgFrom(r, "C01.ld.key-is-resolved-key", ld, Fn("vcr/signature/proof", "LDProof", "Verify"), 2, CallV(Fn("vdr/resolver", "KeyResolver", "ResolveKeyByID"), 0), "the verification key is the key resolved for the proof's verification method")
 	c01ResolveTime(r, ld)
+	// --- KNOWN FINDINGS (open, see known_findings.json / DESIGN §8): a JSON-LD proof signs the RDF dataset the document
+	// canonicalises to, the node reads the JSON by its terms. Three structural necessary conditions for "what is read is what
+	// was signed" that the tree does not meet:
+	// (a) members the @context does not define are dropped from the dataset (so they are not signed) but are read: the
+	//     verifier must refuse them, as the issuer does before signing
+	r.Gate(Gate{ID: "C01.ld.undefined-members-refused", Fn: ld, Effect: ok, Check: ErrCheck(Fn("jsonld", "", "AllFieldsDefined")),
+		Note: "only the issuer calls jsonld.AllFieldsDefined; the verifier accepts added (and, through encoding/json's case folding, overriding) members"})
+	// (b) canonicalisation runs in the processor's safe mode (relative @id nodes, undefined terms and other lossy constructs are
+	//     errors instead of being silently dropped from the signed dataset)
+	c01SafeMode(r)
+	// (c) a JSON-LD presentation's proof covers its credentials: a JWT credential is a plain string in the document, which
+	//     canonicalises to nothing — the verifier must not accept JWT credentials inside a JSON-LD presentation
+	vps = p.Func(ver, "signatureVerifier", "VerifyVPSignature")
+	r.Gate(Gate{ID: "C01.vp.ld-proof-covers-embedded-credentials", Fn: vps, Effect: CallEffect(Fn(ver, "signatureVerifier", "jsonldProof")), ForEach: true,
+		Check: CmpCheck("credential.Format() == jwt_vc is false", token.EQL, CallV(Fn("github.com/nuts-foundation/go-did/vc", "VerifiableCredential", "Format"), -1), StrV("jwt_vc"), false),
+		Note:  "JWT credentials embedded in a JSON-LD presentation can be swapped after signing"})
 	// JWT
 	jw := p.Func(ver, "signatureVerifier", "jwtSignature")
 	r.Gate(Gate{ID: "C01.jwt.verified", Fn: jw, Effect: ok, Check: ErrCheck(Fn("crypto", "", "ParseJWT"))})
@@ -319,5 +358,58 @@ func c01VerifyVPCallers(r *Report) {
 	r.Sites += n
 	if n < 4 {
 		r.Lost("C01.callers.verify-vcs", rule, fmt.Sprintf("%d callers found", n))
+	}
+}
+
+// c01SafeMode: every JsonLdOptions value the jsonld package builds for normalisation/expansion of documents that are verified
+// has SafeMode set to true.
+func c01SafeMode(r *Report) {
+	p := r.P
+	rule := "ARG: JSON-LD options used for canonicalisation have SafeMode = true (lossy constructs are errors, not silently unsigned)"
+	n, bad := 0, 0
+	var pos string
+	for _, s := range p.CallSites(Fn("github.com/piprate/json-gold/ld", "", "NewJsonLdOptions"), false) {
+		if p.FileClass(p.FuncPos(s.Fn)) != "prod" || !strings.Contains(p.FuncName(s.Fn), "jsonld.") {
+			continue
+		}
+		call, ok := s.Instr.(*ssa.Call)
+		if !ok {
+			continue
+		}
+		n++
+		set := false
+		for _, ref := range *call.Referrers() {
+			fa, isFA := ref.(*ssa.FieldAddr)
+			if !isFA {
+				continue
+			}
+			st := fa.X.Type().Underlying().(*types.Pointer).Elem().Underlying().(*types.Struct)
+			if st.Field(fa.Field).Name() != "SafeMode" {
+				continue
+			}
+			for _, r2 := range *fa.Referrers() {
+				if store, isSt := r2.(*ssa.Store); isSt {
+					if b, isB := ConstBool(store.Val); isB && b {
+						set = true
+					}
+				}
+			}
+		}
+		if !set {
+			bad++
+			if pos == "" {
+				pos = p.Pos(s.Pos)
+			}
+		}
+	}
+	r.Sites += n
+	key := "C01.ld.safe-mode"
+	switch {
+	case n == 0:
+		r.Lost(key, rule, "no ld.NewJsonLdOptions call found in the jsonld package")
+	case bad > 0:
+		r.Bad(key, rule, pos, fmt.Sprintf("%d of %d option sets are built without SafeMode", bad, n))
+	default:
+		r.OK(key, rule, "", fmt.Sprintf("%d option set(s)", n), true)
 	}
 }
